@@ -14,16 +14,23 @@ def prove(ctx, module, label, timeout=900):
     when an obligation fails or the tool does."""
     cache = os.path.join(tlc.WORK, "tlaps", uuid.uuid4().hex[:8])
     os.makedirs(cache, exist_ok=True)
-    cmd = ["tlapm", "--cleanfp", "--cache-dir", cache, module + ".tla"]
+    # the back-end provers work under wall-clock timeouts: on a loaded machine (several checks in parallel) an obligation can
+    # time out although it is provable - timeouts are stretched, and a failed run is repeated (with the obligations proved
+    # so far kept) before it counts
     t0 = time.time()
-    try:
-        p = subprocess.run(cmd, cwd=tlc.SPEC, capture_output=True, text=True, timeout=timeout)
-    except subprocess.TimeoutExpired:
-        shutil.rmtree(cache, ignore_errors=True)
-        raise tlc.TLCError("tlapm timed out: %s" % " ".join(cmd))
+    so, m = "", None
+    for attempt, stretch in enumerate(("4", "12", "30")):
+        cmd = ["tlapm"] + (["--cleanfp"] if attempt == 0 else []) + ["--stretch", stretch, "--cache-dir", cache, module + ".tla"]
+        try:
+            p = subprocess.run(cmd, cwd=tlc.SPEC, capture_output=True, text=True, timeout=timeout)
+        except subprocess.TimeoutExpired:
+            shutil.rmtree(cache, ignore_errors=True)
+            raise tlc.TLCError("tlapm timed out: %s" % " ".join(cmd))
+        so = p.stdout + p.stderr
+        m = re.search(r"All (\d+) obligations? proved", so)
+        if m:
+            break
     shutil.rmtree(cache, ignore_errors=True)
-    so = p.stdout + p.stderr
-    m = re.search(r"All (\d+) obligations? proved", so)
     if not m:
         raise tlc.TLCError("tlapm did not prove %s (%s):\n%s" % (module, " ".join(cmd), so[-2500:]))
     ctx.cmds.append(" ".join(cmd))
